@@ -221,3 +221,12 @@ Example C15_round_robin_rejects_out_of_turn :
   ~ accepts (rpre 3) (rpost 3) (mkRr KUseToken 0 0)
       [HCall (CallTransmit 0 false None); HCall (CallTransmit 2 false None)].
 Proof. exact round_robin_rejects_out_of_turn. Qed.
+
+(* ------------------------------------------------------------------------------------------ *)
+(* Which requests await a reply is decided by `RequestType::expects_reply` (regenerated from
+   src/fdl/telegram.rs on every run); it is the standard's table: SDA / SRD / multicast SRD / status,
+   ident and LSAP requests are answered, SDN and the clock / time-event broadcasts are not. *)
+From PB Require Import Tables StdRates StdRatesProofs.
+Theorem C15_expects_reply_standard : forall r : req_type, req_expects_reply r = std_expects_reply r.
+Proof. exact standard_expects_reply. Qed.
+Print Assumptions C15_expects_reply_standard.
